@@ -770,3 +770,26 @@ func sortedKeysSS(m map[string][]string) []string {
 	sort.Strings(ks)
 	return ks
 }
+
+// writeECDSAKeys installs the key-encoder contracts; the point encoder the package uses (Bytes, or RawBytes for
+// secp256k1) is read off its marshal.go.
+func writeECDSAKeys(repoRoot, srcRoot, verifRoot string, check bool) int {
+	b, err := os.ReadFile(filepath.Join(verifRoot, "contracts", "sig", "ecdsa_keys.go.tmpl"))
+	if err != nil {
+		return 0
+	}
+	stale := 0
+	for _, pk := range globPkgs(srcRoot, "ecc/*/ecdsa") {
+		rel := strings.TrimPrefix(pk, "./")
+		src, err := os.ReadFile(filepath.Join(srcRoot, rel, "marshal.go"))
+		if err != nil {
+			continue
+		}
+		enc := "Bytes"
+		if strings.Contains(string(src), "A.RawBytes()") {
+			enc = "RawBytes"
+		}
+		stale += installText(filepath.Join(repoRoot, rel, "zz_verif_contracts_ecdsakeys.go"), strings.ReplaceAll(string(b), "ENCODER", enc), check)
+	}
+	return stale
+}
